@@ -171,6 +171,18 @@ pub enum Format {
     Csv,
 }
 
+/// What is wrong with the last element of an annotations file (a fault at the level of the file format)
+#[derive(Clone, Copy, Debug, Serialize, Deserialize, PartialEq)]
+pub enum FileFault {
+    None,
+    /// the file ends inside the last element, at this per-mille of its length
+    Truncate(usize),
+    /// the last element has no target
+    DropTarget,
+    /// the last element's target is not a selector
+    Garbage,
+}
+
 #[derive(Clone, Debug, Serialize, Deserialize, PartialEq)]
 pub enum Op {
     AddResource {
@@ -201,6 +213,11 @@ pub enum Op {
     /// several builders in one `annotate_from_iter` call
     AnnotateBatch {
         items: Vec<(Option<String>, Sel, Vec<DataSpec>)>,
+    },
+    /// the builders written as a STAM JSON list of annotations into SimFs and loaded with annotate_from_file
+    AnnotateFile {
+        items: Vec<(Option<String>, Sel, Vec<DataSpec>)>,
+        fault: FileFault,
     },
     RemoveAnnotation {
         a: Ref,
@@ -241,6 +258,8 @@ impl Op {
             Op::AddKey { .. } => "add_key",
             Op::Annotate { .. } => "annotate",
             Op::AnnotateBatch { .. } => "annotate_batch",
+            Op::AnnotateFile { fault: FileFault::None, .. } => "annotate_file",
+            Op::AnnotateFile { .. } => "annotate_file_torn",
             Op::RemoveAnnotation { .. } => "remove_annotation",
             Op::RemoveData { strict: true, .. } => "remove_data_strict",
             Op::RemoveData { strict: false, .. } => "remove_data_nonstrict",
